@@ -316,6 +316,40 @@ func rigSchedules(variant string) []rigSchedule {
 			}
 		}
 	}
+	// J. the owner of a Modified line accesses it again while a remote request for the line is waiting for
+	// the owner's write-back (2 and 3 cores)
+	jgrid := []int{0, 1, 2, 3, 5, 50, 150, 300, 305, 308, 309, 310, 311, 312, 315, 320, 400}
+	if full {
+		jgrid = nil
+		for d := 0; d <= 420; d += 2 {
+			jgrid = append(jgrid, d)
+		}
+	}
+	for _, k1 := range kinds {
+		for _, k2 := range kinds {
+			for _, d := range jgrid {
+				out = append(out, rigSchedule{Variant: variant, Cores: 2, Events: []rigEvent{{0, 0, "W", 64}, {400, 1, k1, 68}, {400 + d, 0, k2, 72}, {2000, 1, "R", 64}}})
+				out = append(out, rigSchedule{Variant: variant, Cores: 3, Events: []rigEvent{{0, 0, "W", 64}, {400, 1, k1, 68}, {401, 2, "R", 76}, {400 + d, 0, k2, 72}, {2000, 1, "R", 64}, {2001, 2, "R", 64}}})
+			}
+		}
+	}
+	// K. capacity eviction of a dirty line: core 0 writes 17 lines one after the other (the 17th displaces the
+	// first, which is Modified, and writes it back); another core reads / writes that line at every point of a
+	// sweep around the write-back
+	kstep := 20
+	if full {
+		kstep = 4
+	}
+	for _, k := range kinds {
+		for t := 4600; t <= 6600; t += kstep {
+			var evs []rigEvent
+			for i := 0; i < 17; i++ {
+				evs = append(evs, rigEvent{i, 0, "W", int32(64 * i)})
+			}
+			evs = append(evs, rigEvent{t, 1, k, 4}, rigEvent{9000, 0, "R", 0}, rigEvent{9001, 1, "R", 8})
+			out = append(out, rigSchedule{Variant: variant, Cores: 2, Events: evs})
+		}
+	}
 	// H. (MVP-8) more lines than the shared L3 holds (32 lines of 128 bytes), written and re-read by two cores
 	if variant == "mvp8-0" {
 		for shape := 0; shape < 3; shape++ {
